@@ -38,6 +38,10 @@ pub enum TxKind {
     /// this round's block comes from another producer (key index), assembled by the real
     /// bundle_block on that producer's own node (with its own stake when staking is on)
     PeerBlock(u8),
+    /// like PeerBlock, but first the node under test pools a payment that spends the payer's oldest
+    /// still-spendable output (the other producer's block does not carry it: it stays pooled while
+    /// its input ages by one block)
+    PeerBlockPending(u8),
 }
 
 #[derive(Clone, Debug, PartialEq, Eq)]
@@ -133,7 +137,7 @@ impl Prod {
 
     pub fn make_tx(&self, kind: &TxKind, ts: u64) -> Option<Transaction> {
         match kind {
-            TxKind::None | TxKind::PeerConflict(_) | TxKind::PeerBlock(_) => None,
+            TxKind::None | TxKind::PeerConflict(_) | TxKind::PeerBlock(_) | TxKind::PeerBlockPending(_) => None,
             TxKind::Pay { payer, fee, route } => {
                 let from = key(*payer);
                 let to = if *payer == 1 { key(2).public } else { key(1).public };
